@@ -21,7 +21,7 @@ func ruleText(thorough bool) string {
 	if thorough {
 		reduced = "THOROUGH TIER BOUNDS: every single fault with the full entry list (byte-level classes: Text, ToMarkdown, Chunks, PageCount + the matching raw parsers, on all plain bases); doubles: ALL pairs of structural faults (classes 2-6, all five numeric values) within the same group (PDF object / content-stream line / xref entry line / ZIP record / XML tag), then the cross-group pairs of the same layer base by base until the internal time budget (11 min) is used up - which bases were not completed is listed in caps_hit, so exhaustive=false; run through Text, Chunks, PageCount + the matching raw parsers. "
 	}
-	return "field-inventory bases (structural classes only; the inventory field -> base is in the evidence note field_inventory): pdf-rich, pdf-rev3, pdf-rev3x, docx-rich, odt-rich, xlsx-rich, pptx-rich, epub-rich, html-rich. Numeric class also tries 1048576; the hex-string operands of CMap operators (decoded stream, file rebuilt consistently) are numeric sites with the values zero / all-F of the same width, FFFFFFFF, 7FFFFFFF, 80000000 and lo>hi swap; class 8 = nesting amplifier (every PDF '[' x4096, '<<' x2048, every HTML/XHTML start tag x3000; singles only). Plain bases: 9 generated PDFs (classic xref with a marked-content dictionary and a TJ array in the content; uncompressed xref stream+object stream; xref stream+object streams+Flate; Type0/ToUnicode; indirect /Length+indirect Resources; two revisions+depth-2 page tree; Flate+PNG predictor+xref stream; nested Form XObjects; embedded TrueType program), DOCX, ODT, XLSX, PPTX, EPUB2, EPUB3, HTML (0.6-7 KB each). " +
+	return "field-inventory bases (structural classes only; the inventory field -> base is in the evidence note field_inventory): pdf-rich, pdf-rev3, pdf-rev3x, docx-rich, odt-rich, xlsx-rich, pptx-rich, epub-rich, html-rich. Numeric class also tries 1048576; the hex-string operands of CMap operators (decoded stream, file rebuilt consistently) are numeric sites with the values zero / all-F of the same width, FFFFFFFF, 7FFFFFFF, 80000000 and lo>hi swap; every big-endian integer tabula reads out of an embedded TrueType program (offset table, table directory records, head/hhea/hmtx/cmap fields; decoded stream, rebuilt consistently) is a numeric site with 0, 1, 7F.., 80.., FF..F0, FF..FF, and the fields of one directory record / table header pair up in the quick doubles; class 8 = nesting amplifier (every PDF '[' x4096, '<<' x2048, every HTML/XHTML start tag x3000; singles only). Plain bases: 9 generated PDFs (classic xref with a marked-content dictionary and a TJ array in the content; uncompressed xref stream+object stream; xref stream+object streams+Flate; Type0/ToUnicode; indirect /Length+indirect Resources; two revisions+depth-2 page tree; Flate+PNG predictor+xref stream; nested Form XObjects; embedded TrueType program), DOCX, ODT, XLSX, PPTX, EPUB2, EPUB3, HTML (0.6-7 KB each). " +
 		"Fault catalogue, applied at EVERY site (no sampling): (1) truncation at every byte offset of the file and at every token boundary of every ZIP member / decoded PDF stream (container rebuilt consistently); (2) every maximal digit run -> 0, -1, 2147483648, 9223372036854775807, every binary ZIP header field -> 0, all-ones, high-bit, max-positive; " +
 		"(3) PDF: every indirect reference retargeted to every object number, every startxref, /Prev and xref-entry offset retargeted to every section and object offset; (4) every PDF object dropped / duplicated (rebuilt through pdfw with a consistent xref, and raw span removal / duplication), every ZIP member dropped / duplicated; " +
 		"(5) every delimiter deleted / doubled / swapped for its partner (PDF ( ) [ ] < > << >>, XML/HTML < > \" / = & ;); (6) every compressed stream (PDF Flate streams, deflated ZIP members: raw bytes and inside a consistent container) first/middle/last byte flipped, truncated by 1, emptied; " +
@@ -40,6 +40,8 @@ func ruleText(thorough bool) string {
 func quickPair(bi *baseInfo, x, y edit) bool {
 	valued := func(e edit) bool {
 		switch {
+		case strings.HasPrefix(e.class, "numbin:"): // binary integer fields: all six values
+			return true
 		case isNum(e):
 			return e.val == "0" || e.val == "-1" || e.val == "2147483648"
 		case e.class == "ref" || e.class == "prev" || e.class == "startxref" || e.class == "xrefent":
@@ -393,6 +395,9 @@ func (r *runner) enumPDF(bi *baseInfo, phase int) {
 				}
 			} else if p.xs {
 				T = append(T, streamEdits(pi, 0, len(p.text), p.text, p.name)...)
+			} else if fs := sfntFields(p.text); fs != nil {
+				// embedded font program: every integer tabula reads is a numeric site (Length consistent)
+				T = append(T, binEdits(pi, p.text, fs, p.name)...)
 			}
 		}
 	}
